@@ -477,6 +477,8 @@ def run(ctx):
         ("ltally", "list str * list (N * list (str * N))", "check_ltally", groups["ltally"])], per=70)
     import writer_tie
     corr = writer_tie.obligations(["struct", "save"]) + corr
+    import trainer_run_tie
+    corr = trainer_run_tie.obligations() + corr
     rule = ("generated lists (as C19; flavours: mixed, e-mail/website dominated, all counts tied, 1-3 passwords, 15-30 passwords, "
             "e-mails and websites mixed in one list with many overlapping providers / hosts, every prefix form, sub-domains, paths and trailing mangling) x "
             "coverage in {0, .25, .6, 1, random} x 4 encodings, boundary coverages next to 0 and 1, stale files planted in the length-indexed folders of every third run and in every fixed-name list (Years, Context, Emails, Websites, Grammar, Prince) of every third run = a retrain of an existing rule name; oracle: "
